@@ -60,7 +60,7 @@ func c02Run(c *ev.Ctx) {
 		c.Eval(1)
 		if err != nil {
 			f := &ev.Finding{Sig: fmt.Sprintf("Writer fails: %s; legacy=%v conc>1=%v", errShort(err), it.Opts.Legacy, it.Opts.Conc != 1), What: fmt.Sprintf("%v; %s input=%+v delivery=%+v", err, it.Opts, it.In, it.Deliv), Case: c02Case{Item: it}}
-			c.Confirm(f, func() *ev.Finding {
+			c.ConfirmFree(f, it.Opts.Conc != 1, func() *ev.Finding {
 				_, e2 := produceFrame(it.Opts, it.In.build(), it.Deliv)
 				if e2 != nil {
 					return &ev.Finding{Sig: f.Sig}
@@ -90,7 +90,7 @@ func c02Run(c *ev.Ctx) {
 			}
 			if f := c02ReadCheck(it, input, frame, p); f != nil {
 				pp := p
-				c.Confirm(f, func() *ev.Finding {
+				c.ConfirmFree(f, pp.Conc > 1 || it.Opts.Conc != 1, func() *ev.Finding {
 					in := it.In.build()
 					fr, e := produceFrame(it.Opts, in, it.Deliv)
 					if e != nil {
@@ -239,7 +239,7 @@ func c09Run(c *ev.Ctx) {
 				}
 				if sig, what := conformanceDeliv(it, input, frame); sig != "" {
 					f := &ev.Finding{Sig: sig, What: fmt.Sprintf("%s; %s input=%+v delivery=%+v", what, o, in, d), Case: c02Case{Item: it}}
-					c.Confirm(f, func() *ev.Finding {
+					c.ConfirmFree(f, it.Opts.Conc != 1, func() *ev.Finding {
 						inp := it.In.build()
 						fr, e := produceFrame(it.Opts, inp, it.Deliv)
 						if e != nil {
